@@ -113,10 +113,11 @@ def go_naive(body):
 
 
 class TapePolicy:
-    def __init__(self, tape, multi):
+    def __init__(self, tape, multi, overcommit=False):
         self.tape = list(tape) or [0]
         self.pos = 0
         self.multi = multi
+        self.overcommit = overcommit
 
     def nxt(self, n):
         v = self.tape[self.pos % len(self.tape)]
@@ -177,14 +178,18 @@ class TapePolicy:
                     ready2 = [op for op in ops2 if op["parents_complete"]]
                     if ready2:
                         chosen.append(ready2[self.nxt(len(ready2))])
-            pools = [k for k, (c, r) in free.items() if c >= 1 and r > 1e-6]
+            pools = [k for k, (c, r) in free.items() if c >= 1 and (r > 1e-6 or self.overcommit)]
             if not pools:
                 break
             pool = pools[self.nxt(len(pools))]
             fc, fr = free[pool]
             cpu = 1 + self.nxt(int(fc))
             frac = [0.1, 0.25, 0.5, 1.0][self.nxt(4)]
-            if frac == 1.0 and pool not in used_pools:
+            if self.overcommit and (self.nxt(4) == 0 or fr <= 1e-3):
+                # admissible only because overcommit is on: a memory limit beyond what the pool has free
+                ram = max(fr, 1.0) * 1.5 + 1.0
+                free[pool][1] = fr - ram
+            elif frac == 1.0 and pool not in used_pools:
                 ram = fr                       # exactly the reported free RAM, and nothing else goes to this pool this round
                 free[pool][1] = 0.0
             else:
@@ -358,7 +363,7 @@ def run_case(spec):
     params = dict(spec["params"])
     params["scheduler_algo"] = "rest"
     tps = params["ticks_per_second"]
-    policy = go_naive if spec["policy"] == "go_naive" else TapePolicy(spec["tape"], params["multi_operator_containers"])
+    policy = go_naive if spec["policy"] == "go_naive" else TapePolicy(spec["tape"], params["multi_operator_containers"], params.get("allow_memory_overcommit", False))
     out.label("policy_" + spec["policy"])
     ctx = {"rec": None, "calls": [], "reported": {}, "decisions": {}, "last_tick_field": None, "handler_error": None, "init": 0}
 
